@@ -57,7 +57,9 @@ def gen_plan(rng, cfg, tier):
     plan['oversleep'] = [rng.choice([0.0, 1e-4, 0.05, 2.0]) for _ in range(4)]
   if rng.random() < 0.3:
     t2 = []
-    for _ in range(rng.randint(1, 3)):
+    # exactly one change from the second thread: in carbon a bucket's limits are changed
+    # once, by the reactor thread at shutdown, while the writer thread acquires
+    for _ in range(1):
       # (also the long steps R takes: both threads then wake at the same instant, and the
       # limit change can land inside an acquisition that follows a long quiet period)
       t2.append(['advance', rng.choice([0.0, 0.01, 0.5, 3.0, 1e6, 1e6, 7.3, 1.0])])
